@@ -1,13 +1,116 @@
 /-
   C10 — subsetting keeps exactly the selected subsets and nothing else changes.
+  Property theorems only; helper lemmas are in `Lemmas/Subset.lean`.
+
+  Model: `Msg/Subset.lean` (`subset`, mirrors `bufr.py BufrMessage.subset` after fix F3).
+  Specification: `Spec/SubsetSpec.lean` (`sortedDistinct`: insertion into a strictly increasing
+  list; `expected`: the encoder input described parameter by parameter).
+  No bound on the number of sections, parameters, subsets, values or indices.  The types of the
+  opaque parameter values (`α`) and of the decoded values (`β`) are arbitrary.
+
+  The hypotheses `hn` / `hwf` are the decoder's invariants: the message has an integer `n_subsets`
+  and its template data hold one value list per subset; the harness checks them on every message.
+  The re-encode/decode half of the property (that the encoder input produced here is packed and
+  read back value for value, compressed or not) is the coder's business (C01-C05) and is evaluated
+  on the implementation by the harness.
 -/
 import BufrModel.Msg.Subset
 import BufrModel.Spec.SubsetSpec
+import BufrModel.Lemmas.Subset
 namespace Bufr.Subset
+open Spec
 
 variable {α β : Type}
 
-/-- `subset` only reads the message (the code's `self` comes back as it went in). -/
-theorem C10_source_unchanged (idxs : List Int) (m : Msg α β) : (subsetSt idxs m).2 = m := rfl
+/-- The selection the specification speaks of: strictly increasing, exactly the given indices,
+    as many as there are distinct ones (`len(set(indices))`).  So its `i`-th element is the `i`-th
+    smallest selected index. -/
+theorem C10_selection_sorted_distinct (idxs : List Int) :
+    (sortedDistinct idxs).Pairwise (· < ·) ∧ (∀ i, i ∈ sortedDistinct idxs ↔ i ∈ idxs) ∧
+      (sortedDistinct idxs).length = distinctCount idxs ∧
+      (∀ l : List Int, l.Pairwise (· < ·) → (∀ i, i ∈ l ↔ i ∈ idxs) → l = sortedDistinct idxs) :=
+  ⟨pairwise_sortedDistinct idxs, fun _ => mem_sortedDistinct, length_sortedDistinct idxs,
+   fun _ hl hm => pairwise_lt_ext hl (pairwise_sortedDistinct idxs) (fun x => by rw [hm x, mem_sortedDistinct])⟩
+
+/-- For a non-empty collection of in-range indices (any order, any repeats) `subset` succeeds and
+    returns, section by section and parameter by parameter (`expected`):
+      * template data: the value lists at the sorted distinct indices, in increasing order;
+      * `n_subsets`: the number of distinct indices;
+      * every other parameter (unexpanded descriptors, compression flag, identification, ...):
+        the source value, untouched. -/
+theorem C10_subset_values (m : Msg α β) (idxs : List Int) (n : Nat)
+    (hn : m.nSubsets? = some (n : Int)) (hwf : m.wf n = true)
+    (hne : idxs ≠ []) (hr : ∀ i ∈ idxs, 0 ≤ i ∧ i < (n : Int)) :
+    subset idxs m = .ok (expected (sortedDistinct idxs) m) := by
+  rw [subset_of_in_range idxs m n hn hne hr, ← length_sortedDistinct]
+  exact subsetSects_eq idxs n m hr hwf
+
+/-- What `expected` says about one parameter, spelled out. -/
+theorem C10_expected_param (sel : List Int) (p : Param α β) :
+    (∀ rows, p.isData = true → p.value = .data rows →
+        ∃ out, expectedParam sel p = .data out ∧ out.length = sel.length ∧
+          ∀ i (h : i < sel.length), out[i]? = some (rows.getD (sel[i]).toNat [])) ∧
+    (p.isData = false → p.isNSubsets = true → expectedParam sel p = .int sel.length) ∧
+    (p.isData = false → p.isNSubsets = false → expectedParam sel p = p.value) := by
+  refine ⟨?_, ?_, ?_⟩
+  · intro rows hd hv
+    refine ⟨sel.map fun j => rows.getD j.toNat [], ?_, by simp, ?_⟩
+    · simp [expectedParam, hd, hv]
+    · intro i h
+      simp [h]
+  · intro hd hc; simp [expectedParam, hd, hc]
+  · intro hd hc; simp [expectedParam, hd, hc]
+
+/-- Selected rows exist: every selected index addresses a value list of the source. -/
+theorem C10_selected_in_range (idxs : List Int) (n : Nat) (hr : ∀ i ∈ idxs, 0 ≤ i ∧ i < (n : Int)) :
+    ∀ j ∈ sortedDistinct idxs, j.toNat < n := by
+  intro j hj
+  have := hr j (mem_sortedDistinct.mp hj)
+  omega
+
+/-- Any index below 0 or at/above the number of subsets: refused with the library's error
+    (whatever else the collection holds, whatever the message holds). -/
+theorem C10_out_of_range (m : Msg α β) (idxs : List Int) (n : Int)
+    (hn : m.nSubsets? = some n) (h : ∃ i ∈ idxs, i < 0 ∨ n ≤ i) :
+    subset idxs m = .error .lib := by
+  obtain ⟨i, hi, hb⟩ := h
+  have hne : idxs ≠ [] := by intro h0; subst h0; cases hi
+  obtain ⟨mx, hmx⟩ := maxI_isSome hne
+  obtain ⟨mn, hmn⟩ := minI_isSome hne
+  have h1 := (maxI_spec hmx).2 i hi
+  have h2 := (minI_spec hmn).2 i hi
+  simp only [subset, hmx, hn, hmn]
+  by_cases hc : n ≤ mx
+  · rw [if_pos hc]
+  · rw [if_neg hc, if_pos (by omega)]
+
+/-- Selecting all subsets — every index `0 .. n-1` present, in any order, with any repeats —
+    gives back the message's own data: the encoder input is the list of the source values
+    (`n_subsets` parameters holding `n`). -/
+theorem C10_idempotent_full (m : Msg α β) (idxs : List Int) (n : Nat)
+    (hn : m.nSubsets? = some (n : Int)) (hwf : m.wf n = true)
+    (hcnt : ∀ s ∈ m, ∀ p ∈ s, p.isData = false → p.isNSubsets = true → p.value = .int n)
+    (hpos : 0 < n) (hr : ∀ i ∈ idxs, 0 ≤ i ∧ i < (n : Int))
+    (hall : ∀ k : Nat, k < n → (k : Int) ∈ idxs) :
+    subset idxs m = .ok m.values := by
+  have hne : idxs ≠ [] := by
+    intro h0; subst h0; exact absurd (hall 0 hpos) (by simp)
+  rw [C10_subset_values m idxs n hn hwf hne hr, sortedDistinct_full idxs n hr hall]
+  congr 1
+  simp only [expected, Msg.values]
+  apply List.map_congr_left
+  intro s hs
+  apply List.map_congr_left
+  intro p hp
+  apply expectedParam_full n p
+  · simp only [Msg.wf, List.all_eq_true] at hwf
+    exact hwf s hs p hp
+  · exact hcnt s hs p hp
+
+/-- `subset` only reads the message: the code's `self` comes back as it went in, whatever the
+    outcome.  (In the model this is purity; on the implementation the harness renders the source
+    before and after `subset` + encode, because the value lists are shared by reference.) -/
+theorem C10_source_unchanged (idxs : List Int) (m : Msg α β) :
+    (subsetSt idxs m).2 = m ∧ (subsetSt idxs m).1 = subset idxs m := ⟨rfl, rfl⟩
 
 end Bufr.Subset
